@@ -2103,6 +2103,28 @@ header_pax_extension(struct archive_read *a, struct tar *tar,
 	return (err);
 }
 
+/*
+ * The pax writer records every extended attribute twice, as
+ * LIBARCHIVE.xattr.<name> and as SCHILY.xattr.<name>: keep one.
+ */
+static void
+pax_xattr_add_once(struct archive_entry *entry, const char *name,
+    const void *value, size_t size)
+{
+	const char *n;
+	const void *v;
+	size_t s;
+	int i = archive_entry_xattr_reset(entry);
+
+	while (i-- > 0) {
+		if (archive_entry_xattr_next(entry, &n, &v, &s) != ARCHIVE_OK)
+			break;
+		if (strcmp(n, name) == 0)
+			return;
+	}
+	archive_entry_xattr_add_entry(entry, name, value, size);
+}
+
 static int
 pax_attribute_LIBARCHIVE_xattr(struct archive_entry *entry,
 	const char *name, size_t name_length, const char *value, size_t value_length)
@@ -2126,7 +2148,7 @@ pax_attribute_LIBARCHIVE_xattr(struct archive_entry *entry,
 		return 1;
 	}
 
-	archive_entry_xattr_add_entry(entry, name_decoded,
+	pax_xattr_add_once(entry, name_decoded,
 		value_decoded, value_len);
 
 	free(name_decoded);
@@ -2146,7 +2168,7 @@ pax_attribute_SCHILY_xattr(struct archive_entry *entry,
 	if (null_terminated_name != NULL) {
 		memcpy(null_terminated_name, name, name_length);
 		null_terminated_name[name_length] = '\0';
-		archive_entry_xattr_add_entry(entry, null_terminated_name, value, value_length);
+		pax_xattr_add_once(entry, null_terminated_name, value, value_length);
 		free(null_terminated_name);
 	}
 
